@@ -28,6 +28,8 @@ def main(run):
         pairs = [(0, 1)] if n > 4 else [(a, b) for a in range(n) for b in range(a + 1, n)]
         for a, b in pairs:
             run.prove(f"algebra[n={n},swap={a}{b}]", S.sc_shapley_algebra, {"n": n, "a": a, "b": b})
+    for n in ((2, 3, 4, 5) if run.tier == "quick" else (2, 3, 4, 5, 6)):
+        run.prove(f"interleaved[n={n}]", S.sc_shapley_interleaved, {"n": n})
     run.discharge()
     for n in ((7, 8) if run.tier == "quick" else (8, 9)):
         cnt = 3 if run.tier == "quick" else 6
